@@ -51,7 +51,8 @@ Theorem C06_operation_refines_climb : forall glue body valuef (qs : list nat) (l
 Proof. exact op_loop_climb. Qed.
 
 (* Instantiated for every expression over numbers, percentages, + - * / ^ **, casts `to <unit expression>`, numbers with units, parentheses and function
-   calls f(e1, ..., en) whose arguments are again such expressions, and facts named by one or several words -- any
+   calls f(e1, ..., en) whose arguments are again such expressions, facts named by one or several words and phrases escaped in braces -- that is, every kind of operand value() in grammar.rs
+   accepts -- any
    number of operators, any depth of nesting, any (or no) blanks between any two tokens and at either end of the query
    ([wf_expr]: only a unit expression must be set off by a blank from a following * / ^ or `to`, which would otherwise be read
    into the unit): the parser returns, for every token list of that shape, the tree in which each parenthesised group stands on its
@@ -132,6 +133,12 @@ Example C06_unit_example :
   let ms : uast := (((WORD, [109%N]), [(SLASH, [47%N]); (WORD, [115%N])]), []) in
   let e := Chain (NumU [51%N] [[32%N]] kmhr) (TCons [[32%N]] AStar [42%N] [[32%N]] (Num [50%N]) (TTo [[32%N]] [116%N; 111%N] [[32%N]] ms TNil)) in
   parse_root (wst [] ++ toks_expr e ++ wst []) = Some (trees_expr [] e ++ wsT []) /\ length (toks_expr e) = 15.
+Proof. split; [apply parse_expression; wf_side|reflexivity]. Qed.
+
+(* an escaped phrase in braces is one operand: "{a b} * 2" *)
+Example C06_brace_example :
+  let e := Chain (Brace [123%N] [125%N] [([], [97%N]); ([[32%N]], [98%N])] []) (TCons [[32%N]] AStar [42%N] [[32%N]] (Num [50%N]) TNil) in
+  parse_root (wst [] ++ toks_expr e ++ wst []) = Some (trees_expr [] e ++ wsT []) /\ length (toks_expr e) = 9.
 Proof. split; [apply parse_expression; wf_side|reflexivity]. Qed.
 
 (* `to` binds loosest: "1 to m + 2" is read as 1 to (m + 2), one cast whose right side is the sum *)
